@@ -161,3 +161,185 @@ Proof.
     pose proof (Z.div_mod x 1000 ltac:(lia)). lia.
   - unfold poll_store_op. cbn [apply_store_op]. unfold ctx_load. rewrite sm_get_remove_same. reflexivity.
 Qed.
+
+(* ---------- result alignment (C04) ---------- *)
+Lemma assign_results_ids apps : forall rs ds, map ar_id (assign_results apps rs ds) = map r_id apps.
+Proof.
+  induction apps as [|a r IH]; intros rs ds; cbn [assign_results map]; [reflexivity|].
+  destruct (uc_ok a); [destruct rs|]; cbn [map ar_id]; rewrite IH; reflexivity.
+Qed.
+Lemma make_app_responses_ids d act : map ar_id (make_app_responses d act) = map r_id (d_apps d).
+Proof. unfold make_app_responses. rewrite map_map. reflexivity. Qed.
+Lemma make_app_responses_actions d act : Forall (fun r => ar_result r = act) (make_app_responses d act).
+Proof. unfold make_app_responses. apply Forall_forall. intros r H. apply in_map_iff in H as (x & <- & _). reflexivity. Qed.
+
+(* the i-th offered app receives the i-th installer result; the others NoUpdate *)
+Fixpoint offered_actions (apps : list rapp) (rs : list ares) : list uaction :=
+  match apps with
+  | [] => []
+  | a :: r => if uc_ok a then match rs with x :: rs' => result_action x :: offered_actions r rs' | [] => AInstallPlanExecutionError :: offered_actions r [] end
+              else ANoUpdate :: offered_actions r rs
+  end.
+Lemma assign_results_actions apps : forall rs ds, map ar_result (assign_results apps rs ds) = offered_actions apps rs.
+Proof.
+  induction apps as [|a r IH]; intros rs ds; cbn [assign_results offered_actions map]; [reflexivity|].
+  destruct (uc_ok a); [destruct rs|]; cbn [map ar_result]; rewrite IH; reflexivity.
+Qed.
+Lemma assign_results_data apps : forall rs ds,
+  Forall2 (fun a r => ar_cohort r = r_cohort a /\ ar_uc r = ds) apps (assign_results apps rs ds).
+Proof.
+  induction apps as [|a r IH]; intros rs ds; cbn [assign_results]; [constructor|].
+  destruct (uc_ok a); [destruct rs|]; constructor; try (split; reflexivity); apply IH.
+Qed.
+
+(* ---------- waited-for-reboot (C18) ---------- *)
+Lemma waited_for_reboot_some finish start n d :
+  waited_for_reboot finish start n = Some d <->
+  finish <= wall n /\ start <= mono n /\ d = (wall n - finish) - (mono n - start) /\ 0 <= d.
+Proof.
+  unfold waited_for_reboot.
+  destruct (wall n <? finish) eqn:E1; [apply Z.ltb_lt in E1|apply Z.ltb_ge in E1].
+  { split; [discriminate|lia]. }
+  destruct (mono n <? start) eqn:E2; [apply Z.ltb_lt in E2|apply Z.ltb_ge in E2].
+  { split; [discriminate|lia]. }
+  destruct (wall n - finish - (mono n - start) <? 0) eqn:E3; [apply Z.ltb_lt in E3|apply Z.ltb_ge in E3].
+  { split; [discriminate|lia]. }
+  split; [intro H; inversion H; lia|intros (_ & _ & -> & _); reflexivity].
+Qed.
+Lemma waited_for_reboot_none finish start n :
+  waited_for_reboot finish start n = None <->
+  wall n < finish \/ mono n < start \/ (wall n - finish) - (mono n - start) < 0.
+Proof.
+  destruct (waited_for_reboot finish start n) as [d|] eqn:E.
+  - apply waited_for_reboot_some in E. split; [discriminate|lia].
+  - split; [intros _|reflexivity]. unfold waited_for_reboot in E.
+    destruct (wall n <? finish) eqn:E1; [apply Z.ltb_lt in E1; lia|].
+    destruct (mono n <? start) eqn:E2; [apply Z.ltb_lt in E2; lia|].
+    destruct (wall n - finish - (mono n - start) <? 0) eqn:E3; [apply Z.ltb_lt in E3; lia|discriminate].
+Qed.
+(* the reported duration does not depend on when the report happens: shifting both clocks by the same delay *)
+Lemma waited_for_reboot_delay_independent finish start n delay :
+  0 <= delay ->
+  waited_for_reboot finish start {| wall := wall n + delay; mono := mono n + delay |} =
+  match waited_for_reboot finish start n with
+  | Some d => Some d
+  | None => waited_for_reboot finish start {| wall := wall n + delay; mono := mono n + delay |}
+  end.
+Proof.
+  intro Hd. destruct (waited_for_reboot finish start n) as [d|] eqn:E; [|reflexivity].
+  apply waited_for_reboot_some in E. apply waited_for_reboot_some. cbn [wall mono]. lia.
+Qed.
+
+(* ---------- the waits (C12) ---------- *)
+Fixpoint fires (stim : list stimulus) : nat :=
+  match stim with Fire _ :: r => Datatypes.S (fires r) | _ => O end.
+Lemma remove_nth_length {A} (l : list A) : forall i x, nth_error l i = Some x -> length l = Datatypes.S (length (remove_nth i l)).
+Proof.
+  induction l as [|p ps IH]; intros [|i] x H; cbn in *; try discriminate; [reflexivity|].
+  f_equal. eapply IH. exact H.
+Qed.
+(* the timer branch of the outer select is taken only after every armed timer has fired *)
+Lemma outer_select_timer stim : forall pending ctl rest c,
+  outer_select stim pending ctl = Some (None, rest, c) -> pending <> [] ->
+  exists used, stim = used ++ rest /\ (length pending <= fires used)%nat.
+Proof.
+  induction stim as [|s r IH]; intros pending ctl rest c H Hne; cbn [outer_select] in H; [discriminate|].
+  destruct s as [i|src]; [|discriminate].
+  destruct (nth_error pending i) as [x|] eqn:En.
+  - destruct (remove_nth i pending) as [|y ys] eqn:Er.
+    + inversion H; subst. exists [Fire i]. split; [reflexivity|].
+      pose proof (remove_nth_length _ _ _ En) as Hl. rewrite Er in Hl. cbn in *. lia.
+    + destruct (IH (y :: ys) ctl rest c H ltac:(discriminate)) as (used & -> & Hl).
+      exists (Fire i :: used). split; [reflexivity|]. cbn [fires].
+      pose proof (remove_nth_length _ _ _ En) as Hl2. rewrite Er in Hl2. lia.
+  - destruct (IH pending ctl rest c H Hne) as (used & -> & Hl). exists (Fire i :: used). split; [reflexivity|]. cbn [fires]. lia.
+Qed.
+
+(* ---------- context round trip through storage (C08) ---------- *)
+Lemma sm_get_set_other m k k' v : bytes_eqb k k' = false -> sm_get (sm_set m k v) k' = sm_get m k'.
+Proof.
+  intro H. unfold sm_set. cbn [sm_get]. rewrite H.
+  induction m as [|[k0 v0] r IH]; cbn [sm_remove sm_get]; [reflexivity|].
+  destruct (bytes_eqb k0 k) eqn:E1.
+  - apply bytes_eqb_eq in E1. subst. rewrite H. exact IH.
+  - cbn [sm_get]. destruct (bytes_eqb k0 k'); [reflexivity|exact IH].
+Qed.
+Lemma sm_get_remove_other m k k' : bytes_eqb k k' = false -> sm_get (sm_remove m k) k' = sm_get m k'.
+Proof.
+  intro H. induction m as [|[k0 v0] r IH]; cbn [sm_remove sm_get]; [reflexivity|].
+  destruct (bytes_eqb k0 k) eqn:E1.
+  - apply bytes_eqb_eq in E1. subst. rewrite H. exact IH.
+  - cbn [sm_get]. destruct (bytes_eqb k0 k'); [reflexivity|exact IH].
+Qed.
+
+(* ---------- event reports (C10) ---------- *)
+Lemma report_ops_spec ev apps nv dur :
+  report_ops ev apps nv dur =
+  flat_map (fun a => match nv_get nv (a_id a) with
+                     | Some next => [OpEvent a {| ev_type := ev_type ev; ev_result := ev_result ev; ev_err := ev_err ev;
+                                                  ev_prev := Some (Version.print (a_ver a)); ev_next := next; ev_dl := dl_ms dur |}]
+                     | None => [] end) apps.
+Proof. reflexivity. Qed.
+
+(* exactly the known apps that were offered an update, in app-set order, each with its own versions *)
+Lemma report_ops_apps ev apps nv dur :
+  map op_app (report_ops ev apps nv dur) = filter (fun a => match nv_get nv (a_id a) with Some _ => true | None => false end) apps.
+Proof.
+  unfold report_ops. induction apps as [|a r IH]; [reflexivity|]. cbn [flat_map filter].
+  destruct (nv_get nv (a_id a)); cbn [List.app map op_app]; rewrite IH; reflexivity.
+Qed.
+Lemma report_ops_events ev apps nv dur o :
+  In o (report_ops ev apps nv dur) ->
+  exists a next, In a apps /\ nv_get nv (a_id a) = Some next /\
+    o = OpEvent a {| ev_type := ev_type ev; ev_result := ev_result ev; ev_err := ev_err ev;
+                     ev_prev := Some (Version.print (a_ver a)); ev_next := next; ev_dl := dl_ms dur |}.
+Proof.
+  unfold report_ops. intro H. apply in_flat_map in H as (a & Ha & Ho).
+  destruct (nv_get nv (a_id a)) as [next|] eqn:E; [|destruct Ho].
+  destruct Ho as [<-|[]]. exists a, next. auto.
+Qed.
+
+(* what Context::persist writes, as a pure list of operations (fault-free) *)
+Definition opt_int_op (k : bytes) (v : option Z) : store_op := match v with Some z => SSetInt k z | None => SRemove k end.
+Definition ctx_persist_ops (sc : sched) (ps : pstate) : list store_op :=
+  [opt_int_op K_LAST_UPDATE_TIME (match s_last_update sc with Some p => pct_to_micros p | None => None end);
+   opt_int_op K_POLL_INTERVAL (match ps_poll ps with Some ns => let us := ns / 1000 in if us <=? i64_max then Some us else None | None => None end);
+   opt_int_op K_FAILED_CHECKS (if ps_fails ps =? 0 then None else Some (ps_fails ps))].
+
+Lemma key_ne_1 : bytes_eqb K_POLL_INTERVAL K_LAST_UPDATE_TIME = false. Proof. vm_compute. reflexivity. Qed.
+Lemma key_ne_2 : bytes_eqb K_FAILED_CHECKS K_LAST_UPDATE_TIME = false. Proof. vm_compute. reflexivity. Qed.
+Lemma key_ne_3 : bytes_eqb K_FAILED_CHECKS K_POLL_INTERVAL = false. Proof. vm_compute. reflexivity. Qed.
+
+Lemma get_after_opt_same s k v :
+  sm_get (apply_store_op (opt_int_op k v) s) k = match v with Some z => Some (VInt z) | None => None end.
+Proof. destruct v; cbn [opt_int_op apply_store_op]; [apply sm_get_set_same|apply sm_get_remove_same]. Qed.
+Lemma get_after_opt_other s k k' v :
+  bytes_eqb k k' = false -> sm_get (apply_store_op (opt_int_op k v) s) k' = sm_get s k'.
+Proof. intro H. destruct v; cbn [opt_int_op apply_store_op]; [apply sm_get_set_other|apply sm_get_remove_other]; exact H. Qed.
+
+(* a state machine rebuilt on storage written by Context::persist presents to its policy exactly the persisted
+   values, times at microsecond precision *)
+Lemma ctx_load_persist sc ps s :
+  0 <= ps_fails ps <= u32_max ->
+  (forall ns, ps_poll ps = Some ns -> 0 <= ns /\ ns / 1000 <= i64_max) ->
+  ctx_load (fold_left (fun m op => apply_store_op op m) (ctx_persist_ops sc ps) s) =
+  (let lut := match (match s_last_update sc with Some p => pct_to_micros p | None => None end) with
+              | Some m => Some (PWall (from_micros m)) | None => None end in
+   {| s_last_update := lut; s_last_check := lut; s_next := None |},
+   {| ps_poll := match ps_poll ps with Some ns => Some (ns / 1000 * 1000) | None => None end;
+      ps_fails := ps_fails ps; ps_proxied := 0 |}).
+Proof.
+  intros Hf Hp. unfold ctx_persist_ops. cbn [fold_left]. unfold ctx_load.
+  rewrite (get_after_opt_other _ _ _ _ key_ne_2), (get_after_opt_other _ _ _ _ key_ne_1), get_after_opt_same.
+  rewrite (get_after_opt_other _ _ _ _ key_ne_3), get_after_opt_same.
+  rewrite get_after_opt_same.
+  f_equal.
+  - destruct (match s_last_update sc with Some p => pct_to_micros p | None => None end); reflexivity.
+  - f_equal.
+    + destruct (ps_poll ps) as [ns|] eqn:E; [|reflexivity]. destruct (Hp ns eq_refl) as [H0 H1].
+      cbv zeta. replace (ns / 1000 <=? i64_max) with true by (symmetry; apply Z.leb_le; exact H1).
+      replace (0 <=? ns / 1000) with true by (symmetry; apply Z.leb_le, Z.div_pos; lia). reflexivity.
+    + destruct (ps_fails ps =? 0) eqn:E; [apply Z.eqb_eq in E; rewrite E; reflexivity|].
+      replace ((0 <=? ps_fails ps) && (ps_fails ps <=? u32_max)) with true; [reflexivity|].
+      symmetry. apply andb_true_iff. split; apply Z.leb_le; lia.
+Qed.
